@@ -661,14 +661,19 @@ theorem sec_roundtrip_uncompressed (g : CurveGroup) (pSize : ℕ) (hybrid : Bool
     (hp : g.p ≤ 256 ^ pSize) (h : bytesFromPoint g pSize Q false = some b) :
     pointFromOctets g pSize hybrid b = .ok Q := pointFromOctets_bytesFromPoint_uncompressed g pSize hybrid Q b hp h
 
-/-- compressed forms (PARTIAL: soundness on the closed-form square-root branches; the compressed round trip is not
-proved): the answer is `(x, y)` / `(x, p − y)` for the even root `y` the lift found, and — unless that root is `0`,
-the case of finding `sec.compressed_two_torsion` — a reduced point of the curve with the parity the prefix names -/
-theorem sec_compressed_sound_partial (g : CurveGroup) (pSize : ℕ) (hybrid : Bool) (pfxB : UInt8) (body : Bytes)
+/-- compressed forms (closed-form square-root branches; the compressed round trip is not proved): the answer has the
+`x` the octets name, is a reduced point of the curve, never `y = 0`, with the parity the prefix names -/
+theorem sec_compressed_sound (g : CurveGroup) (pSize : ℕ) (hybrid : Bool) (pfxB : UInt8) (body : Bytes)
     (Q : Point) (h23 : pfxB.toNat = 2 ∨ pfxB.toNat = 3) (hbr : g.p % 4 = 3 ∨ g.p % 8 = 5)
     (h : pointFromOctets g pSize hybrid (pfxB :: body) = .ok Q) :
-    ∃ y, yEvenVar g (ofBE body) = some y ∧ Q = ((ofBE body : ℤ), if pfxB.toNat = 2 then y else g.p - y) ∧
-      (y ≠ 0 → isOnCurveX g Q = some true ∧ Q.2 % 2 = (pfxB.toNat : ℤ) - 2) :=
+    (pfxB :: body).length = pSize + 1 ∧ Q.1 = (ofBE body : ℤ) ∧ Q.2 ≠ 0 ∧ isOnCurveX g Q = some true ∧
+      Q.2 % 2 = (pfxB.toNat : ℤ) - 2 :=
   pointFromOctets_compressed_sound g pSize hybrid pfxB body Q h23 hbr h
+
+/-- "a point off the curve is refused rather than answered", for the decoder: whatever `point_from_octets` answers —
+any prefix byte, hybrid or not — is a reduced point of the curve and never the spelling of infinity -/
+theorem sec_answer_is_on_curve (g : CurveGroup) (pSize : ℕ) (hybrid : Bool) (b : Bytes) (Q : Point)
+    (hbr : g.p % 4 = 3 ∨ g.p % 8 = 5) (h : pointFromOctets g pSize hybrid b = .ok Q) :
+    Q.2 ≠ 0 ∧ isOnCurveX g Q = some true := pointFromOctets_on_curve g pSize hybrid b Q hbr h
 
 end Props.C01
